@@ -28,7 +28,8 @@ LEVEL_TEXT = ('Random operation sequences over {reset, step, read state, read ob
               'every operation; functional_observation may run at most once per state epoch; repeated reads return the same '
               'observation without moving the generator; state/observation/step before the first reset must raise; OuterEnv must '
               'expose exactly representation.convert(inner state / observation) for each of the 3x3 representation pairs and '
-              'raise without a representation.')
+              'raise without a representation.'
+              ' Also: back-to-back resets, refused steps between reads, resets into equal states under stochastic observation, environments replaced by deep copies / pickle round trips, refused outer reads (must not move the generator), reassigned representations.')
 LEVEL_NOTE = 'Trusted: the shadow driver; lazy-evaluation order taken from the InnerEnv.observation docstring.'
 SHARDS = {'quick': 4, 'thorough': 16}
 BUDGET_S = {'quick': 300, 'thorough': 2400}
